@@ -6,6 +6,12 @@ Line-protocol driver for the C18 models (shard assignment + master state machine
   reset | up <id> | down <id> | dbcfg <db> | dropdb <db> | asg <db> s:r,r ...
   burst up <id> down <id> ...   (a batch of node events; answers the state after the last one)
   batch <line> | <line> | ...   (single-event lines; answers the state after the last one)
+  noop <what>                   (a malformed event: the state stays as it is)
+  cfgh <db> <numShards> <rf> <faults> | n1 n2 ... | none|some s:r,r ... | none|some s:r,r ...
+      (the repository side of one handled config event: registered nodes in listing order, the
+       persisted assignment found, the assignment persisted afterwards as observed; faults is `-` or
+       letters of g (Get fails) l (List fails) p (first Put fails) q (second Put fails); answers
+       `persisted <observed>` iff some start, shift < |nodes| make the model persist exactly that)
 -/
 import LinVerif.Util.Proto
 import LinVerif.Model.Master
@@ -83,6 +89,7 @@ def stepOne (st : St) (ws : List String) : St × String :=
       | _, _, _, _, _, _, _ => (st, "bad-op")
     | _ => (st, "bad-op")
   | ["reset"] => (St.init, "ok")
+  | ["noop", _] => (st, showState st)      -- an event the manager rejects (malformed config / node event)
   | "burst" :: rest =>
     match parseBurst rest with
     | some evs => let s := Master.run st evs; (s, showState s)
@@ -109,6 +116,44 @@ def stepOne (st : St) (ws : List String) : St × String :=
     | _, _ => (st, "bad-op")
   | _ => (st, "bad-op")
 
+def parseOptAsg : List String → Option (Option Assignment)
+  | ["none"] => some none
+  | "some" :: ws => (ws.mapM parseShard).map some
+  | _ => none
+
+def parseFaults (w : String) : Option Faults :=
+  if w = "-" then some Faults.none
+  else if w.toList.all (fun ch => ch = 'g' || ch = 'l' || ch = 'p' || ch = 'q') && w ≠ "" then
+    some { get := w.toList.contains 'g', list := w.toList.contains 'l', put := w.toList.contains 'p' }
+  else none
+
+def showOptAsg : Option Assignment → String
+  | none => "none"
+  | some a => if a.isEmpty then "some" else "some " ++ showAsg a
+
+/-- does some pair of draws `start, shift < max 1 n` make the handler persist `obs`? Answers the
+model's persisted assignment for the first matching pair, otherwise for `start = shift = 0`. -/
+def cfghAnswer (db : Nat) (ns rf : Int) (f : Faults) (nodes : List Nat) (before : Option Assignment)
+    (obs : Option Assignment) : String :=
+  let r : Store := { reg := nodes, asgs := match before with | none => [] | some a => [(db, a)] }
+  let n := max 1 nodes.length
+  let result (start shift : Nat) : Option Assignment :=
+    (Map.lookup (cfgHandle r [] db ns rf start shift f).asgs db).map sortByKey
+  let want := obs.map sortByKey
+  let pairs := (List.range n).flatMap (fun a => (List.range n).map (fun b => (a, b)))
+  match pairs.find? (fun p => result p.1 p.2 == want) with
+  | some p => "persisted " ++ showOptAsg (result p.1 p.2)
+  | none => "persisted " ++ showOptAsg (result 0 0) ++ " (no start/shift reproduces the observed assignment)"
+
+def stepCfgh (st : St) (ws : List String) : St × String :=
+  match splitBar ws with
+  | [[d, a, b, fl], nodes, bef, aft] =>
+    match d.toNat?, a.toInt?, b.toInt?, parseFaults fl, Proto.natList? nodes, parseOptAsg bef, parseOptAsg aft with
+    | some db, some ns, some rf, some f, some nl, some before, some obs =>
+      (st, cfghAnswer db ns rf f nl before obs)
+    | _, _, _, _, _, _, _ => (st, "bad-op")
+  | _ => (st, "bad-op")
+
 /-- `batch ev | ev | ...`: single-event lines applied in order, answers the state after the last one -/
 def step (st : St) (ws : List String) : St × String :=
   match ws with
@@ -118,6 +163,7 @@ def step (st : St) (ws : List String) : St × String :=
         let so := stepOne acc.1 seg
         (so.1, acc.2 && so.2 != "bad-op")) (st, true)
     if r.2 then (r.1, showState r.1) else (st, "bad-op")
+  | "cfgh" :: rest => stepCfgh st rest
   | _ => stepOne st ws
 
 def main (_args : List String) : IO Unit := Proto.runLoop St.init step
